@@ -8,7 +8,8 @@ ALL = [f"C{i:02d}" for i in range(1, 21)]
 CHECKS = {}
 for f in sorted(glob.glob(os.path.join(ROOT, "harness/meta/C*.json"))):
     d = json.load(open(f))
-    if os.path.exists(os.path.join(ROOT, "harness", d["property_id"].lower() + ".py")):
+    # a property is claimed only once the lead has integrated it (ready flag set by tools/mark_ready.py)
+    if d.get("ready") and os.path.exists(os.path.join(ROOT, "harness", d["property_id"].lower() + ".py")):
         CHECKS[d["property_id"]] = d
 NA = {}
 if os.path.exists(os.path.join(ROOT, "harness/meta/not_applicable.json")):
@@ -60,6 +61,8 @@ json.dump(m, open(os.path.join(ROOT, "MANIFEST.json"), "w"), indent=1)
 
 merged = {"_doc": "Merged from known_findings.d/Cxx.json by tools/gen_manifest.py. 'findings' with status open suppress exactly the violation whose key matches (key = call site + input class); 'fixed' lines suppress nothing. Never written at run time.", "findings": [], "fixed": []}
 for f in sorted(glob.glob(os.path.join(ROOT, "known_findings.d/C*.json"))):
+    if os.path.basename(f)[:-5] not in CHECKS:
+        continue
     d = json.load(open(f))
     merged["findings"] += d.get("findings", [])
     merged["fixed"] += d.get("fixed", [])
